@@ -132,16 +132,19 @@ def _fix_variable_names(
 def _fix_undefined_variables(source: str, variables: Collection[str]) -> str:
     variables = set(variables)
 
-    lines = source.splitlines()
+    # Only line feeds end a line; str.splitlines also splits at form feeds inside of strings
+    lines = source.split("\n")
+    if lines and not lines[-1]:
+        lines.pop()
     change_count = -len(lines)
-    lineno = next(
-        i
-        for i, line in enumerate(lines)
-        if not line.startswith("#")
-        and not line.startswith("'''")
-        and not line.startswith('"""')
-        and not line.startswith("from __future__ import")
-    )
+    # After leading comments, the module docstring and the __future__ imports
+    lineno = next((i for i, line in enumerate(lines) if not line.startswith("#")), len(lines))
+    body = core.parse(source).body
+    if body and core.match_template(body[0], ast.Expr(value=ast.Constant(value=str))):
+        lineno = body[0].end_lineno
+    for node in body:
+        if isinstance(node, ast.ImportFrom) and node.module == "__future__":
+            lineno = node.end_lineno
     for package, package_variables in constants.ASSUMED_SOURCES.items():
         overlap = variables.intersection(package_variables)
         if overlap:
